@@ -19,7 +19,9 @@ func init() {
 		Assumptions: []string{"ref.Merge is the weakest reading of the merge rules where the statement is silent (re-decoded map key with a struct value: merged or replaced)",
 			"Marshal on the same instance is part of every history (its output must equal the reference bytes)"},
 		Work: c10Work,
-		Post: func(a *mc.Agg) []string { return needDims(a, "depth:2", "depth:3", "alias-prior", "env-choice-explored", "cfg:default", "cfg:protoarrays") },
+		Post: func(a *mc.Agg) []string {
+			return needDims(a, "depth:2", "depth:3", "alias-prior", "env-choice-explored", "cfg:default", "cfg:protoarrays")
+		},
 	})
 }
 
